@@ -19,7 +19,8 @@ def script(paths, out):
     with open(out, "w") as o:
         for line in open(paths):
             p = json.loads(line)
-            o.write("R %s %d %d %d\n" % (p["kind"], p["a"], p["b"], p["near"]))
+            ini = {"stale": -1, "custom0": 0, "custom1": 1, "custom2": 2, "custom3": 3}[p.get("ini", "stale")]
+            o.write("R %s %d %d %d %d\n" % (p["kind"], p["a"], p["b"], p["near"], ini))
             for ev in p["path"]:
                 o.write("E %d %d\n" % (ev["k"], ev["ulp"]) if ev["e"] == "evaluate" else "T\n")
             o.write("X\n")
